@@ -1051,12 +1051,24 @@ class Interp:
                 vals.extend(a)
             else:
                 vals.append(a)
-        w = 0 if ty[0] == 'void' else ty_bits(ty)
+        elems = None
+        if ty[0] == 'struct':
+            # a small aggregate returned in registers (e.g. a float quaternion as { <2 x float>, <2 x float> }): the elements are consecutive slices of one opaque result
+            elems = [ty_bits(e) for e in ty[1]]
+            w = sum(elems)
+        else:
+            w = 0 if ty[0] == 'void' else ty_bits(ty)
         call = tm.mk('call', (name,) + tuple(vals), max(w, 1))
         self.calls.append((name, call, ins.get('dbg')))
         for i, a, size in ptrs:
             self.mem.store(a.base, a.off, tm.mk('callout', (call, i), size * 8))
-        if w:
+        if elems is not None:
+            out, pos = [], 0
+            for ew in elems:
+                out.append(tm.slice_(call, pos, ew))
+                pos += ew
+            self.env[ins['id']] = out
+        elif w:
             self.setv(ins, call)
 
     def _is_const_ref(self, mangled, i):
